@@ -294,6 +294,48 @@ def first_sample_rows(fn):
     return out
 
 
+def check_kernel_slots_agree(ctx, rep, rule='C10.R'):
+    """the pruning kernels are all called by TreeLikelihoodModel with the same laid-out operands: the matrices, the frequencies reshaped to [..., 1, state] and the
+    proportions are prepared once in `_call` and handed down.  A call that hands a kernel the model's raw attribute instead (`self.subst_model.frequencies`, [S, state]) gives
+    `freqs @ partials` a vector-matrix product whose sample axes no longer line up ([S, S, N]).  Sibling rule: for each kernel parameter the expressions passed at the call
+    sites agree; a deviant is reported."""
+    mname = 'torchtree.evolution.tree_likelihood'
+    m = ctx.prog.module(mname)
+    cls = m.classes.get('TreeLikelihoodModel')
+    if cls is None:
+        raise AnalysisError('TreeLikelihoodModel not found')
+    by_param = {}
+    n = 0
+    for fn in [b for b in cls.body if isinstance(b, ast.FunctionDef)]:
+        for c in ast.walk(fn):
+            if isinstance(c, ast.Call) and isinstance(c.func, ast.Name) and c.func.id.startswith('calculate_treelikelihood') and c.func.id in m.functions:
+                n += 1
+                params = [a.arg for a in m.functions[c.func.id].args.args]
+                for i, a in enumerate(c.args):
+                    if i < len(params):
+                        by_param.setdefault(params[i], []).append((fn, c, norm_text(a)))
+                for k in c.keywords:
+                    if k.arg:
+                        by_param.setdefault(k.arg, []).append((fn, c, norm_text(k.value)))
+    if n < 4:
+        rep.incomplete(rule, 'kernels::slots', '', f"only {n} kernel calls found in TreeLikelihoodModel")
+        return
+    for pname in ('freqs', 'weights'):      # the matrices and proportions legitimately differ between kernels with and without a category axis
+        sites = by_param.get(pname, [])
+        if len(sites) < 2:
+            continue
+        texts = {}
+        for fn, c, t in sites:
+            texts.setdefault(t, []).append((fn, c))
+        major = max(texts, key=lambda t: len(texts[t]))
+        dev = [(t, fc) for t, lst in texts.items() if t != major for fc in lst]
+        rep.check(rule, f"evolution.tree_likelihood::TreeLikelihoodModel::kernels-receive-the-same-{pname}", not dev, where(m, dev[0][1][1]) if dev else where(m, cls),
+                  {'passed': {t: len(v) for t, v in texts.items()}},
+                  f"{dev[0][1][0].name if dev else ''} hands a pruning kernel `{dev[0][0][:50] if dev else ''}` as `{pname}` where the other {len(texts[major])} kernel calls hand it "
+                  f"`{major[:40]}` (laid out in _call for the sample, category and state axes): the raw attribute has another layout, so `freqs @ partials` pairs the sample axis of "
+                  f"one operand with a data axis of the other")
+
+
 def check_first_sample_rows(ctx, rep, rule='C10.P', only=None):
     t = ast.parse(ROW0_POSITIVE)
     if len(first_sample_rows(t.body[0])) != 2:
@@ -1122,6 +1164,7 @@ def run(ctx, rep):
     axes.check_event_axes(ctx, rep, 'C10.A', SCOPE_PACKAGES, 15)
     rep.rule('C10.R', "element-wise operations and concatenations combine values of the same rank relative to the sample shape (ranks read from `<sample shape> + (…)` expansions and the documented layout of branch-model rates)")
     check_ranks(ctx, rep)
+    check_kernel_slots_agree(ctx, rep)
     rep.rule('C10.S', "Distribution._sample_shape, folded over 13 abstract shape cases (x / parameters unbatched, batched separately, batched together, likelihood term), returns the sample dimensions")
     check_distribution_sample_shape(ctx, rep)
     rep.rule('C10.C', "a density that is an element-wise combination of parameter tensors and tree quantities counts every one of them in its sample shape")
